@@ -921,17 +921,17 @@ MANIFEST = {
             "sat.json translator. That tseitin.encode's result is a checker-accepted theorem is judged by the real checker on generated formulas "
             "(not proved); its CNF is compared with the model's. tseitin_succeeds is for subterm orders that pass the model's orderOK check "
             "(the real order always did); that the model's own default order passes it is only evaluated, not proved. Needs the /repo fixes "
-            "a73d4bc and 8de4523: on a tree without them the check reports the name-clash and true/false findings.",
+            "4ab1cad and 2b1f8e8: on a tree without them the check reports the name-clash and true/false findings.",
     "design_ref": "DESIGN.md 4/C15",
 }
 FINDINGS = [
-    {"status": "fixed", "key": "nontermination:duplicate-literal-in-clause", "commit": "f79a848",
+    {"status": "fixed", "key": "nontermination:duplicate-literal-in-clause", "commit": "5b840a5",
      "what": "solve_cnf([[('x', False), ('x', False)]]) did not terminate: a clause repeating a literal is never unit"},
-    {"status": "fixed", "key": "tseitin:not-equisat:atom-named-like-auxiliary", "commit": "a73d4bc",
+    {"status": "fixed", "key": "tseitin:not-equisat:atom-named-like-auxiliary", "commit": "4ab1cad",
      "what": "tseitin.encode(a & ~x1) returned an unsatisfiable CNF for a satisfiable formula: the auxiliary variables x1..xn "
              "were not chosen fresh for the formula"},
-    {"status": "fixed", "key": "tseitin:not-equisat:true-false-constant", "commit": "8de4523",
+    {"status": "fixed", "key": "tseitin:not-equisat:true-false-constant", "commit": "2b1f8e8",
      "what": "tseitin.encode(false) (also ~true, a & false) returned a satisfiable CNF: true/false were encoded as free atoms"},
-    {"status": "fixed", "key": "tseitin:raise:InvalidDerivationException:non-boolean-equality-atom", "commit": "8de4523",
+    {"status": "fixed", "key": "tseitin:raise:InvalidDerivationException:non-boolean-equality-atom", "commit": "2b1f8e8",
      "what": "tseitin.encode raised on a formula with an atom m = n between numbers: is_logical took every equality for an equivalence"},
 ]
